@@ -27,7 +27,8 @@ theorem cert_of_accept {P : Prog} (hc : ∀ b ∈ P.blocks, ∀ c ∈ P.succ b, 
   | ok tbl =>
     simp only [h1, bind, Except.bind] at h
     obtain ⟨s1, s2, s3⟩ := scopes_ok h1
-    cases h2 : Dataflow.liveRun (flowCfg P (lookup tbl)) headSched (liveFuel P tbl)
+    cases h2 : Dataflow.liveRun (flowCfg P (lookup tbl)) headSched
+        (liveFuel (flowCfg P (lookup tbl)) (liveDefault P))
         (Dataflow.liveInit (flowCfg P (lookup tbl)) (liveDefault P)) with
     | none => simp [h2] at h
     | some t =>
